@@ -95,6 +95,9 @@ def generate(rng, tier):
     for k in range(rng.randrange(2, 9)):
         if rng.random() < 0.3:
             body = [gen_form(rng, k, True) for _ in range(rng.randrange(1, 4))]
+            if rng.random() < 0.3:
+                # a local macro defined (and maybe used) before the staging forms of the same body
+                body.insert(rng.randrange(len(body)), {"kind": "lmac", "n": 1, "bind": False, "ctx": None, "use": rng.random() < 0.5})
             forms.append({"kind": "defn", "body": body,
                           "ret_at": rng.randrange(len(body)) if rng.random() < 0.3 else None})
         else:
@@ -195,6 +198,13 @@ class Model:
 
     def form(self, f, run_log):
         k = f["kind"]
+        if k == "lmac":
+            self.t += 1
+            v = 6000 + self.t
+            text = f"(defmacro lm{self.t} [] {v})"
+            if f.get("use"):
+                return f"(do {text} (lm{self.t}))", v
+            return text, None
         tags = [self.tag() for _ in range(f["n"])]
         logs = " ".join(f'({L} "{t}")' for t in tags)
         sp = f.get("spell", "-")
